@@ -2621,13 +2621,20 @@ class op(object):
         inequalities = lp1._inequalities
         if not inequalities:
             raise TypeError('lp must have at least one inequality')
-        G = inequalities[0]._f._linear._coeff[x]
         h = -inequalities[0]._f._constant
+        G = inequalities[0]._f._linear._coeff.get(x)
+        if G is None:
+            # all coefficients of the inequalities are zero
+            if format == 'dense': G = matrix(0.0, (len(h),len(x)))
+            else: G = spmatrix(0.0, [], [], (len(h),len(x)))
 
         equalities = lp1._equalities
         if equalities:
-            A = equalities[0]._f._linear._coeff[x]
             b = -equalities[0]._f._constant
+            A = equalities[0]._f._linear._coeff.get(x)
+            if A is None:
+                if format == 'dense': A = matrix(0.0, (len(b),len(x)))
+                else: A = spmatrix(0.0, [], [], (len(b),len(x)))
         elif format == 'dense':
             A = matrix(0.0, (0,len(x)))
             b = matrix(0.0, (0,1))
